@@ -116,8 +116,10 @@ def build_sites():
     os.makedirs(vlib.BUILD, exist_ok=True)
     with vlib.Lock("go.lock"):
         ov = vlib.overlay_map()
-        ov["Replace"][os.path.join(vlib.REPO, "cmd", "verif-sites", "main.go")] = os.path.join(
-            vlib.VERIF, "harness", "cmd", "verif-sites", "main.go")
+        sdir = os.path.join(vlib.VERIF, "harness", "cmd", "verif-sites")
+        for f in sorted(os.listdir(sdir)):
+            if f.endswith(".go"):
+                ov["Replace"][os.path.join(vlib.REPO, "cmd", "verif-sites", f)] = os.path.join(sdir, f)
         path = os.path.join(vlib.BUILD, "overlay-c19.json")
         with open(path, "w") as f:
             json.dump(ov, f, indent=1)
@@ -135,7 +137,7 @@ def run_sites():
 
 
 KINDS = {"assert": "KAssert", "index": "KIndex", "panic": "KPanic", "must": "KMust", "nilderef": "KNilderef",
-         "recursion": "KRecursion", "nilarg": "KNilarg"}
+         "recursion": "KRecursion", "nilarg": "KNilarg", "nilfield": "KNilfield", "dyncmp": "KDyncmp"}
 
 
 def site_term(s):
@@ -144,7 +146,7 @@ def site_term(s):
 
 
 def inventory_stage(run):
-    """Returns (sites, accounted flags, set of finding identities whose site is in the tree) or None."""
+    """Returns (sites, accounted flags) or None."""
     ok, blog = build_sites()
     if not ok:
         run.violation("corr:C19/translator-build", {"correspondence": "verif-sites no longer builds against the tree",
@@ -159,32 +161,27 @@ def inventory_stage(run):
             "Open Scope string_scope.",
             "(* regenerated from %s on every run by checks/C19.py *)" % vlib.REPO,
             "Definition inventory : list site := [", ";\n".join(site_term(s) for s in sites), "].",
-            "Definition A := Eval vm_compute in (map is_accounted inventory).", "Print A.",
-            "Definition F := Eval vm_compute in (map (fun f => existsb (String.eqb f) (open_findings inventory)) "
-            "[F_C19a; F_C19b; F_C19c; F_C19d; F_C19e; F_C19f]).", "Print F."]
+            "Definition A := Eval vm_compute in (map is_accounted inventory).", "Print A."]
     rc, out = vlib.coqc_eval(os.path.join(vlib.BUILD, "C19"), "sites", "\n".join(body), timeout=600)
     ma = re.search(r"A\s*=\s*(.*?)\n\s*:\s*list", out, re.S)
-    mf = re.search(r"F\s*=\s*(.*?)\n\s*:\s*list", out, re.S)
-    if rc != 0 or not ma or not mf:
+    if rc != 0 or not ma:
         run.violation("corr:C19/inventory-eval", {"correspondence": "coq evaluation of the inventory failed",
                                                    "log": out[-3000:]}, False)
         return None
     flags = [t == "true" for t in re.findall(r"\b(true|false)\b", ma.group(1))]
-    fl = [t == "true" for t in re.findall(r"\b(true|false)\b", mf.group(1))]
-    if len(flags) != len(sites) or len(fl) != len(FINDINGS):
+    if len(flags) != len(sites):
         run.violation("corr:C19/inventory-eval", {"correspondence": "unexpected shape of the inventory evaluation",
                                                    "log": out[-3000:]}, False)
         return None
     if all(flags):
         # kernel-checked statement about the current source
-        proof = "\n".join(body[:9] + ["Lemma inventory_accounted : all_accounted inventory = true.",
+        proof = "\n".join(body[:-2] + ["Lemma inventory_accounted : all_accounted inventory = true.",
                                       "Proof. vm_compute. reflexivity. Qed.", "Print Assumptions inventory_accounted."])
         rc, out = vlib.coqc_eval(os.path.join(vlib.BUILD, "C19"), "sites_proof", proof, timeout=600)
         if rc != 0 or "Closed under the global context" not in out:
             run.violation("corr:C19/inventory-proof", {"correspondence": "inventory_accounted does not check",
                                                         "log": out[-3000:]}, False)
-    present = {f for f, b in zip(FINDINGS, fl) if b}
-    return sites, flags, present
+    return sites, flags
 
 
 # ------------------------------------------------------------------------------------------ running
@@ -339,7 +336,7 @@ def modelable(s):
     return all(c in "\n\t\r" or 0x20 <= ord(c) <= 0x7e for c in s)
 
 
-def gen_collector(r, fixed, cli):
+def gen_collector(r, cli):
     """A static package whose objects the generator knows: the collector model applies."""
     phases = r.sample(["deploy", "crds", "rbac", "post"], r.randint(1, 3))
     n = r.randint(1, 4)
@@ -375,7 +372,7 @@ def gen_collector(r, fixed, cli):
     files["a.yaml"] = "---\n".join(docs[:split]) or "# empty\n"
     if docs[split:]:
         files["sub/b.yaml"] = "---\n".join(docs[split:])
-    scen = "(ScCollector %s %s %s)" % (cB(fixed), cL([cstr(p) for p in phases]), cL(terms))
+    scen = "(ScCollector %s %s)" % (cL([cstr(p) for p in phases]), cL(terms))
     if cli:
         return {"target": "cli", "cmd": "tree", "render": render_sc(files)}, scen
     return {"target": "pipeline", "render": render_sc(files), "deploy": r.random() < 0.3}, scen
@@ -441,6 +438,182 @@ def schema_deep(n):
     return out + "%stype: string\n" % ind
 
 
+def schema_manifest(schema, phases=("deploy", "post"), tail=""):
+    """Manifest with the given JSONSchemaProps (a JSON value; JSON is YAML) as config schema."""
+    return manifest_yaml(list(phases), "  config:\n    openAPIV3Schema: %s\n" % json.dumps(schema), tail=tail)
+
+
+SCALAR_TYPES = ["string", "integer", "number", "boolean"]
+WRONG_DEFAULTS = {"string": [5, True, {}, [], None], "integer": ["x", 1.5, {}, None], "number": ["x", [], None],
+                  "boolean": ["true", 0, None], "object": ["x", 5, []], "array": ["x", {}, 5]}
+GOOD_DEFAULTS = {"string": "x", "integer": 1, "number": 1.5, "boolean": True, "object": {}, "array": []}
+
+
+def gen_schema(r, depth=0):
+    """Structure-aware JSONSchemaProps: mostly structural, with the odd corners the validation code branches on."""
+    t = r.choice(["object", "object", "array", "array", "string", "integer", "number", "boolean", None, "nonsense"]
+                 if depth < 3 else SCALAR_TYPES)
+    s = {}
+    if t is not None:
+        s["type"] = t
+    if t == "object":
+        names = r.sample(["a", "b", "c", "k", "metadata", "kind"], r.randint(0, 3))
+        pk = r.random()
+        if pk < 0.75:
+            s["properties"] = {n: gen_schema(r, depth + 1) for n in names}
+        elif pk < 0.85:
+            s["properties"] = {}
+        if r.random() < 0.3:
+            s["required"] = r.sample(names + ["missing", "other"], r.randint(1, 2))
+        ap = r.random()
+        if ap < 0.15:
+            s["additionalProperties"] = r.choice([True, False])
+        elif ap < 0.35:
+            s["additionalProperties"] = gen_schema(r, depth + 1)
+        if r.random() < 0.2:
+            s["x-kubernetes-map-type"] = r.choice(["atomic", "granular", "wrong", ""])
+        if r.random() < 0.2:
+            s["x-kubernetes-preserve-unknown-fields"] = r.choice([True, False])
+        if r.random() < 0.12:
+            s["x-kubernetes-embedded-resource"] = r.choice([True, True, False])
+    elif t == "array":
+        form = r.random()
+        if form < 0.45:
+            s["items"] = gen_schema(r, depth + 1)
+        elif form < 0.7:
+            s["items"] = [gen_schema(r, depth + 1) for _ in range(r.choice([1, 1, 2]))]
+        elif form < 0.78:
+            s["items"] = r.choice([[], None, {}])
+        if r.random() < 0.15:
+            s["additionalItems"] = r.choice([True, False, gen_schema(r, depth + 1)])
+        lt = r.random()
+        if lt < 0.6:
+            s["x-kubernetes-list-type"] = r.choice(["atomic", "set", "set", "map", "map", "wrong"])
+        mk = r.random()
+        if mk < 0.3:
+            s["x-kubernetes-list-map-keys"] = r.choice([["k"], ["a"], ["missing"], [], ["k", "k"], ["a", "k"]])
+        if r.random() < 0.2:
+            s[r.choice(["maxItems", "minItems"])] = r.choice([0, 1, 5, -1])
+        if r.random() < 0.1:
+            s["uniqueItems"] = r.choice([True, False])
+    elif t in SCALAR_TYPES:
+        if r.random() < 0.2:
+            s["enum"] = r.choice([[GOOD_DEFAULTS[t]], [], [1, "x", {}], None])
+        if t == "string" and r.random() < 0.3:
+            s[r.choice(["format", "pattern"])] = r.choice(["date-time", "byte", "nonsense", "(", "^a+$", ""])
+        if t in ("integer", "number") and r.random() < 0.3:
+            s[r.choice(["minimum", "maximum", "multipleOf"])] = r.choice([0, 1, -1, 1.5])
+    if t is not None and r.random() < 0.3:
+        s["default"] = GOOD_DEFAULTS.get(t, 1) if r.random() < 0.5 else r.choice(WRONG_DEFAULTS.get(t, [None, 1]))
+    if r.random() < 0.12:
+        s["nullable"] = r.choice([True, False])
+    if r.random() < 0.08:
+        s["x-kubernetes-int-or-string"] = True
+        if r.random() < 0.6:
+            s.pop("type", None)
+            s["anyOf"] = [{"type": "integer"}, {"type": "string"}]
+    if depth < 3 and r.random() < 0.12:
+        k = r.choice(["oneOf", "anyOf", "allOf", "not"])
+        sub = [gen_schema(r, depth + 2) if r.random() < 0.5 else r.choice([{"required": ["a"]}, {"minimum": 1}, {"pattern": "^a"}, {}])
+               for _ in range(r.choice([1, 2]))]
+        s[k] = sub[0] if k == "not" else sub
+    if r.random() < 0.06:
+        s["x-kubernetes-validations"] = r.choice([[{"rule": "true"}], [{"rule": "self == self", "message": "m"}], [{"rule": "self.a =="}],
+                                                  [{"rule": ""}], [{"rule": "1"}], [{"rule": "true", "messageExpression": "'m' +"}], [], None])
+    return s
+
+
+def gen_config_for(r, schema, depth=0):
+    """A configuration value that mostly fits the schema."""
+    if r.random() < 0.15 or depth > 4 or not isinstance(schema, dict):
+        return r.choice(JUNK)
+    t = schema.get("type")
+    if t == "object":
+        props = schema.get("properties") or {}
+        out = {n: gen_config_for(r, ps, depth + 1) for n, ps in props.items() if r.random() < 0.7}
+        if r.random() < 0.3:
+            out["extra"] = r.choice(JUNK)
+        return out
+    if t == "array":
+        it = schema.get("items")
+        it = it[0] if isinstance(it, list) and it else it
+        return [gen_config_for(r, it, depth + 1) for _ in range(r.choice([0, 1, 2, 2]))]
+    return GOOD_DEFAULTS.get(t, None)
+
+
+def gen_schema_package(r):
+    schema = gen_schema(r)
+    if schema.get("type") != "object" and r.random() < 0.8:
+        schema = {"type": "object", "properties": {"a": schema}}
+    cfg = gen_config_for(r, schema)
+    tail = ""
+    if r.random() < 0.3:
+        tail = "test:\n  template:\n  - name: t1\n    context:\n      package: {metadata: {name: n, namespace: ns}}\n      config: %s\n" % json.dumps(
+            gen_config_for(r, schema))
+    files = {"manifest.yaml": schema_manifest(schema, tail=tail), "a.yaml": obj_yaml("a", {A_PHASE: "deploy"})}
+    sc = {"target": "pipeline", "render": render_sc(files, cfg if isinstance(cfg, (dict, type(None))) or r.random() < 0.3 else None),
+          "deploy": r.random() < 0.2}
+    if r.random() < 0.15:
+        sc = {"target": "cli", "cmd": r.choice(["tree", "validate"]), "render": sc["render"]}
+    return sc, "ScOpaque"
+
+
+def schema_corpus():
+    """Exhaustive small scope over the shapes the list / map validation of the config schema branches on."""
+    out = []
+    item_forms = [("absent", None), ("schema-string", {"type": "string"}),
+                  ("schema-object", {"type": "object", "properties": {"k": {"type": "string"}}, "required": ["k"]}),
+                  ("schema-object-atomic", {"type": "object", "x-kubernetes-map-type": "atomic", "properties": {"k": {"type": "string"}}}),
+                  ("schema-array", {"type": "array", "items": {"type": "string"}}),
+                  ("schema-array-set", {"type": "array", "x-kubernetes-list-type": "set", "items": {"type": "string"}}),
+                  ("array-form-string", [{"type": "string"}]), ("array-form-object", [{"type": "object", "properties": {"k": {"type": "string"}}}]),
+                  ("array-form-two", [{"type": "string"}, {"type": "integer"}]), ("array-form-empty", []), ("null", "null")]
+    for _, items in item_forms:
+        for lt in (None, "atomic", "set", "map", "wrong"):
+            for mk in (None, ["k"], ["missing"], []):
+                prop = {"type": "array"}
+                if items == "null":
+                    prop["items"] = None
+                elif items is not None:
+                    prop["items"] = items
+                if lt is not None:
+                    prop["x-kubernetes-list-type"] = lt
+                if mk is not None:
+                    prop["x-kubernetes-list-map-keys"] = mk
+                schema = {"type": "object", "properties": {"a": prop}}
+                files = {"manifest.yaml": schema_manifest(schema), "a.yaml": obj_yaml("a", {A_PHASE: "deploy"})}
+                out.append(({"target": "pipeline", "render": render_sc(files, {"a": [{"k": "x"}]} if isinstance(items, dict) and items.get("type") == "object" else {"a": ["x"]})},
+                            "ScOpaque"))
+    for ap in (None, True, False, {"type": "string"}, {"type": "object", "properties": {}}):
+        for props in (None, {}, {"k": {"type": "string"}}):
+            for mt in (None, "atomic", "granular", "wrong"):
+                for puf in (None, True, False):
+                    for emb in (None, True):
+                        for nullable in (None, True):
+                            prop = {"type": "object"}
+                            for key, v in (("additionalProperties", ap), ("properties", props), ("x-kubernetes-map-type", mt),
+                                           ("x-kubernetes-preserve-unknown-fields", puf), ("x-kubernetes-embedded-resource", emb), ("nullable", nullable)):
+                                if v is not None:
+                                    prop[key] = v
+                            schema = {"type": "object", "properties": {"a": prop}, "required": ["a", "missing"] if nullable else ["a"]}
+                            files = {"manifest.yaml": schema_manifest(schema), "a.yaml": obj_yaml("a", {A_PHASE: "deploy"})}
+                            out.append(({"target": "pipeline", "render": render_sc(files, {"a": {"k": "x"}})}, "ScOpaque"))
+    for comb in ("oneOf", "anyOf", "allOf", "not"):
+        for sub in ({"type": "string"}, {"required": ["a"]}, {"properties": {"a": {"minimum": 1}}}, {comb: [{"type": "string"}]} if comb != "not" else {"not": {}}):
+            for ios in (False, True):
+                prop = {"type": "object", "properties": {"a": {"type": "integer"}}}
+                if ios:
+                    prop = {"x-kubernetes-int-or-string": True, "anyOf": [{"type": "integer"}, {"type": "string"}]}
+                prop[comb] = sub if comb == "not" else [sub]
+                for default in (None, "x", {"a": "wrong"}):
+                    p2 = dict(prop)
+                    if default is not None:
+                        p2["default"] = default
+                    files = {"manifest.yaml": schema_manifest({"type": "object", "properties": {"p": p2}}), "a.yaml": obj_yaml("a", {A_PHASE: "deploy"})}
+                    out.append(({"target": "pipeline", "render": render_sc(files, {"p": {"a": 1}})}, "ScOpaque"))
+    return out
+
+
 def gen_pipeline_damaged(r):
     """Mostly valid package with one damaged aspect; opaque to the model."""
     phases = ["deploy", "post"]
@@ -449,6 +622,8 @@ def gen_pipeline_damaged(r):
              "b.yaml": obj_yaml("b", {A_PHASE: "post", A_CONDMAP: "Available => x/Available"}, kind="Deployment",
                                 api="apps/v1", body="spec: {replicas: 1}\n")}
     config, env, component = None, None, ""
+    if r.random() < 0.25:
+        return gen_schema_package(r)
     kind = r.choice(["anno", "anno", "anno-shape", "metadata", "yaml-bytes", "yaml-bytes", "manifest-field", "manifest-field",
                      "manifest-bytes", "schema", "filter", "template", "template", "lock", "components", "test-template",
                      "deep", "config", "paths", "multi-manifest", "env"])
@@ -668,7 +843,7 @@ def path_class(name):
     return "POutside", False
 
 
-def gen_oci_truncation(entries, t, fixed):
+def gen_oci_truncation(entries, t):
     """entries: [(tar entry name, body)], regular files with distinct names, relative, no "..". Plain truncation
     at offset t. mutate.Extract re-encodes the layer: where the layer breaks off between entries (or inside a
     header, padding, the trailer) FromOCI sees a clean end of archive; inside a body it sees a short body."""
@@ -687,23 +862,23 @@ def gen_oci_truncation(entries, t, fixed):
             evs.append("THeader %s false" % pc)
         break
     sc = {"target": "oci", "layers": [base64.b64encode(stream[:t]).decode()]}
-    return sc, "(ScOCI %s %s)" % (cB(fixed), cL(evs)), len(stream)
+    return sc, "(ScOCI %s)" % cL(evs), len(stream)
 
 
-def gen_oci(r, fixed, exhaustive_t=None):
+def gen_oci(r, exhaustive_t=None):
     names = r.sample(["package/manifest.yaml", "package/a.yaml", "package/sub/b.yaml", "package/c.yml", "package/README.md", "package/d/e/f.yaml",
                       "package/.hidden.yaml", "package/.git/config", "package/sub/.x/y.yaml", "other/x.yaml", "Dockerfile", "etc/passwd"], r.randint(1, 4))
     entries = [(n, (manifest_yaml() if n.endswith("manifest.yaml") else obj_yaml("x", {A_PHASE: "deploy"})).encode()[:r.choice([0, 1, 100, 511, 512, 513, 700])])
                for n in names]
     if exhaustive_t is not None:
-        return gen_oci_truncation(entries, exhaustive_t, fixed)[:2]
+        return gen_oci_truncation(entries, exhaustive_t)[:2]
     kind = r.choice(["trunc", "trunc", "trunc-boundary", "garble", "names", "types", "gzip", "multi", "sizes", "empty"])
     total = sum(512 + len(b) + (512 - len(b) % 512) % 512 for _, b in entries) + 1024
     if kind == "trunc":
-        return gen_oci_truncation(entries, r.randint(0, total), fixed)[:2]
+        return gen_oci_truncation(entries, r.randint(0, total))[:2]
     if kind == "trunc-boundary":
         t = max(0, min(total, r.choice(range(0, total + 1, 512)) + r.choice([-1, 0, 1, 2, 100, 256, 511])))
-        return gen_oci_truncation(entries, t, fixed)[:2]
+        return gen_oci_truncation(entries, t)[:2]
     stream = b"".join(tar_entry(n, b) for n, b in entries) + b"\0" * 1024
     compressed = False
     if kind == "garble":
@@ -828,11 +1003,11 @@ def gen_mapconditions(r):
     return sc, scen
 
 
-def gen_template_conditions(r, fixed):
+def gen_template_conditions(r):
     obj, gen = gen_status_object(r)
     g = r.choice([gen, gen, 1, 0])
     sc = {"target": "template-conditions", "object": obj, "generation": g}
-    return sc, "(ScTemplateConditions %s %s %s)" % (cB(fixed), cZ(g), cobj(obj))
+    return sc, "(ScTemplateConditions %s %s)" % (cZ(g), cobj(obj))
 
 
 SOURCE = {"apiVersion": "v1", "kind": "ConfigMap", "metadata": {"name": "src", "namespace": "ns1", "labels": {CACHE_LABEL: "True"}},
@@ -844,12 +1019,12 @@ KEYS = ["", ".", "..", "{", "}", "{}", "{.}", "{.a", ".a}", ".data.k", "{.data.k
 DESTS = ["", ".", ".x", "x", "..", ".a.b", ".a..b", "ä", ".ä", " ", ". x", ".x.", "...", ".data.k", "\x00", "." * 300, ".a" * 300]
 
 
-def gen_template_source(r, fixed):
+def gen_template_source(r):
     if r.random() < 0.45:
         d = r.choice(DESTS)
         if modelable(d) and "\n" not in d:
             return ({"target": "template-source", "items": [{"key": ".data.k", "destination": d}], "object": SOURCE},
-                    "(ScTemplateSource %s %s)" % (cB(fixed), cstr(d)))
+                    "(ScTemplateSource %s)" % cstr(d))
     items = [{"key": r.choice(KEYS), "destination": r.choice(DESTS)} for _ in range(r.choice([1, 1, 2, 3]))]
     obj = SOURCE if r.random() < 0.7 else damage_json(r, SOURCE)
     if not isinstance(obj, dict):
@@ -948,7 +1123,39 @@ CEL_RULES = ["self.status.ready == true", "self.status.x", "1", "self ==", "self
 PATHS = ["", ".", "..", ".status", ".status.conditions", ".spec.a", "status", ".status.x.y", ".metadata.generation", ".a[0]", ".status.conditions[0]", " ", ".ä"]
 
 
+SHAPES = {"int": 1, "int2": 1, "zero": 0, "float": 1.5, "str": "s", "str2": "s", "empty": "", "true": True, "false": False, "null": None,
+          "list": [1, 2], "list2": [1, 2], "list3": [2, 1], "elist": [], "elist2": [], "map": {"a": 1}, "map2": {"a": 1}, "map3": {"a": 2}, "emap": {},
+          "nested": [[1], [2]], "nested2": [[1], [2]], "lom": [{"a": 1}], "lom2": [{"a": 1}], "mol": {"a": [1]}, "mol2": {"a": [1]}, "deep": {"a": {"b": [{"c": [1]}]}},
+          "lnull": [None], "mnull": {"a": None}, "mixed": [1, "a", None, [1], {"a": 1}]}
+
+
+def shapes_object(r=None):
+    return {"apiVersion": "v1", "kind": "ConfigMap", "metadata": {"name": "x", "namespace": "ns1", "generation": 1},
+            "shapes": json.loads(json.dumps(SHAPES)), "status": {"observedGeneration": 1, "replicas": [1], "updatedReplicas": [1]}}
+
+
+def probe_shape_corpus():
+    """fieldsEqual with fieldA / fieldB resolving to every pair of JSON shapes."""
+    out = []
+    names = sorted(SHAPES)
+    for a in names:
+        for b in names:
+            probes = [{"probes": [{"fieldsEqual": {"fieldA": ".shapes." + a, "fieldB": ".shapes." + b}}], "selector": {}}]
+            out.append(({"target": "probe", "probes": probes, "object": shapes_object()}, "ScOpaque"))
+    return out
+
+
 def gen_probe(r):
+    if r.random() < 0.25:
+        # fieldsEqual on paths that resolve to arbitrary shapes, also below the top level
+        paths = [".shapes." + n for n in SHAPES] + [".shapes.map.a", ".shapes.deep.a.b", ".shapes.mol.a", ".status.replicas", ".status.updatedReplicas",
+                                                     ".shapes", ".metadata", ".shapes.nope", "shapes.list", ".shapes.list.", "..shapes.list"]
+        obj = shapes_object()
+        if r.random() < 0.3:
+            obj["shapes"] = damage_json(r, obj["shapes"])
+        probes = [{"probes": [{"fieldsEqual": {"fieldA": r.choice(paths), "fieldB": r.choice(paths)}} for _ in range(r.choice([1, 2]))],
+                   "selector": r.choice([{}, {"kind": {"group": "", "kind": "ConfigMap"}}])}]
+        return {"target": "probe", "probes": probes, "object": obj}, "ScOpaque"
     probes = []
     for _ in range(r.choice([1, 1, 2, 3])):
         k = r.random()
@@ -977,9 +1184,8 @@ def gen_probe(r):
     return {"target": "probe", "probes": [{"probes": probes, "selector": sel}] if r.random() < 0.9 else r.choice([[], [{}], [{"probes": None}]]), "object": obj}, "ScOpaque"
 
 
-def gen_all(seed, tier, present):
+def gen_all(seed, tier):
     r = vlib.rng(seed, "C19")
-    fa, fb, fc, fd = F_A not in present, F_B not in present, F_C not in present, F_D not in present
     out = []
 
     def add(p):
@@ -989,15 +1195,15 @@ def gen_all(seed, tier, present):
     man = manifest_yaml(["deploy"])
     for cli in (False, True):
         files = {"manifest.yaml": man, "a.yaml": obj_yaml("o0", {A_PHASE: "deploy", A_CONDMAP: "garbage"})}
-        scen = "(ScCollector %s [\"deploy\"] [%s])" % (cB(fa), pobj_term("deploy", 0, "garbage"))
+        scen = "(ScCollector [\"deploy\"] [%s])" % pobj_term("deploy", 0, "garbage")
         add(({"target": "cli", "cmd": "tree", "render": render_sc(files)} if cli else
              {"target": "pipeline", "render": render_sc(files), "deploy": True}, scen))
     files = {"manifest.yaml": man, "a.yaml": obj_yaml("o0", {A_PHASE: "deploy", A_CONDMAP: ""})}
-    add(({"target": "pipeline", "render": render_sc(files)}, "(ScCollector %s [\"deploy\"] [%s])" % (cB(fa), pobj_term("deploy", 0, ""))))
+    add(({"target": "pipeline", "render": render_sc(files)}, "(ScCollector [\"deploy\"] [%s])" % pobj_term("deploy", 0, "")))
     add(({"target": "cli", "cmd": "validate", "render": render_sc(files)}, "ScOpaque"))
     wit = {"metadata": {"generation": 1}, "status": {"conditions": [{"type": "Ready", "status": "True", "message": "all good", "observedGeneration": 1}]}}
-    add(({"target": "template-conditions", "object": wit, "generation": 1}, "(ScTemplateConditions %s %s %s)" % (cB(fc), cZ(1), cobj(wit))))
-    add(({"target": "template-source", "items": [{"key": ".data.k", "destination": ""}], "object": SOURCE}, "(ScTemplateSource %s \"\")" % cB(fd)))
+    add(({"target": "template-conditions", "object": wit, "generation": 1}, "(ScTemplateConditions %s %s)" % (cZ(1), cobj(wit))))
+    add(({"target": "template-source", "items": [{"key": ".data.k", "destination": ""}], "object": SOURCE}, "(ScTemplateSource \"\")"))
     ot = {"apiVersion": "package-operator.run/v1alpha1", "kind": "ObjectTemplate", "metadata": {"name": "t", "namespace": "ns1", "generation": 1},
           "spec": {"template": "apiVersion: v1\nkind: ConfigMap\nmetadata:\n  name: out\n", "sources": [
               {"apiVersion": "v1", "kind": "ConfigMap", "name": "src", "items": [{"key": ".data.k", "destination": ""}]}]}}
@@ -1014,11 +1220,14 @@ def gen_all(seed, tier, present):
     # tar stream truncated at every header/body boundary (+-1) of a fixed three-entry stream; every offset in thorough
     entries = [("package/manifest.yaml", manifest_yaml().encode()), ("package/.hidden/notes.txt", b"n" * 700),
                ("package/a.yaml", obj_yaml("x", {A_PHASE: "deploy"}).encode()), ("Dockerfile", b"FROM scratch\n" * 50), ("package/sub/b.yaml", b"a: b\n" * 103)]
-    _, _, total = gen_oci_truncation(entries, 0, fb)
+    _, _, total = gen_oci_truncation(entries, 0)
     offsets = range(0, total + 1) if tier == "thorough" else sorted({max(0, min(total, b + d)) for b in range(0, total + 1, 512) for d in (-1, 0, 1, 257)} |
                                                                      set(range(0, total + 1, 97)))
     for t in offsets:
-        add(gen_oci_truncation(entries, t, fb)[:2])
+        add(gen_oci_truncation(entries, t)[:2])
+
+    for p in schema_corpus() + probe_shape_corpus():
+        add(p)
 
     n = 4700 if tier == "quick" else 196000
     weights = [("collector", 10), ("collector-cli", 2), ("pipeline", 22), ("oci", 10), ("mapconditions", 14), ("template-conditions", 14),
@@ -1027,19 +1236,19 @@ def gen_all(seed, tier, present):
     for _ in range(n):
         t = r.choices(names, [w[1] for w in weights])[0]
         if t == "collector":
-            add(gen_collector(r, fa, False))
+            add(gen_collector(r, False))
         elif t == "collector-cli":
-            add(gen_collector(r, fa, True))
+            add(gen_collector(r, True))
         elif t == "pipeline":
             add(gen_pipeline_damaged(r))
         elif t == "oci":
-            add(gen_oci(r, fb))
+            add(gen_oci(r))
         elif t == "mapconditions":
             add(gen_mapconditions(r))
         elif t == "template-conditions":
-            add(gen_template_conditions(r, fc))
+            add(gen_template_conditions(r))
         elif t == "template-source":
-            add(gen_template_source(r, fd))
+            add(gen_template_source(r))
         elif t == "template-reconcile":
             add(gen_template_reconcile(r))
         elif t == "owner":
@@ -1059,8 +1268,13 @@ def check(run, tier, seed, replay=None):
     run.assumptions += [
         "PARTIAL: panics inside yaml, text/template, sprig, cel-go, jsonpath, go-containerregistry, apimachinery are only fuzzed, not modelled; "
         "nil map writes, integer division, conversions and stack exhaustion are not in the site inventory",
+        "the stage models are those of the present tree (repaired shapes); the five repaired sites are `Fixed` entries of the table, outside the accepted "
+        "inventory, with `_v0` models and refutation theorems naming the fixing commits",
         "the site inventory is syntactic (go/types): unchecked assertions, index/slice expressions on slices/strings/arrays, explicit panic, Must* helpers, "
-        "pointer results used before an unconditional err != nil check, direct recursion; `guarded` is a heuristic and part of a site's identity",
+        "pointer results used before an unconditional err != nil check, direct recursion, nil passed to a pointer/interface parameter of another module, "
+        "dereferences of pointer-typed struct fields (and of locals assigned from them) with a same-function nil-check dominance heuristic, ==/!= on two "
+        "operands of type any; `guarded` is a heuristic and part of a site's identity; not covered: nil dereference of parameters, locals and call results, "
+        "map keys of interface type, switch on dynamic values",
         "verdicts ByConstruction / Library / Validated of the table are reviewed claims about the code, checked by proof only where a stage model exists "
         "(condition map, collector, mapConditions, ObjectTemplate conditions and source items, FromOCI, annotation owner strategy)",
         "cluster objects are what a client decodes from API server JSON (maps, slices, string, bool, int64, float64, nil); ownerReferences apiVersion is "
@@ -1072,13 +1286,12 @@ def check(run, tier, seed, replay=None):
     if not ok:
         run.violation("corr:harness-build", {"correspondence": "harness no longer builds against the tree", "log": blog[-4000:]}, False)
         return
-    present = inv[2] if inv else set(FINDINGS)
     if replay:
         rp = json.load(open(replay))["replay"]
         # a replay without a scenario (inventory / theorem violations) re-runs the inventory and theorem stages only
         pairs = [(rp["scenario"], rp.get("model", "ScOpaque"))] if "scenario" in rp else []
     else:
-        pairs = gen_all(seed, tier, present)
+        pairs = gen_all(seed, tier)
     scs = [p[0] for p in pairs]
     outs = run_scenarios(scs, par=8)
     run.cov["evaluations"] = len(scs)
@@ -1142,25 +1355,25 @@ def check(run, tier, seed, replay=None):
 
     # inventory verdict, after the fuzz had its chance to reach the unknown sites
     if inv:
-        sites, flags, _ = inv
+        sites, flags = inv
         for s, acc in zip(sites, flags):
             if acc:
                 continue
             pkg = s["file"].rsplit("/", 2)[-2] if "/" in s["file"] else ""
             fn = pkg + "." + re.sub(r"^\((\*?)(\w+)\)\.", lambda m: ("(*%s)." % m.group(2)) if m.group(1) else m.group(2) + ".", s["func"])
-            if fn in new_panic_funcs:
-                continue  # a panic in this function that is not a known finding is reported above, with its input
+            hit = fn in new_panic_funcs
             run.violation("corr:C19/unaccounted panic site %s %s %s `%s`" % (s["file"], s["func"], s["kind"], s["expr"]),
                           {"theorem": "all_accounted inventory = true (theories/NoPanic.v) fails for the current source: a potential panic "
                                       "site the model does not account for", "site": s,
-                           "note": "no generated input reached it in this run; model it (constructor + verdict) or guard it"}, False)
+                           "note": ("a generated input panics in this function: see the concrete violation of this run" if hit else
+                                    "no generated input reached it in this run; model it (constructor + verdict) or guard it")}, False)
         run.cov["sites"] = len(sites)
         run.cov["sites_accounted"] = sum(flags)
         run.cov["sites_unguarded"] = sum(1 for s in sites if not s["guarded"])
-        run.cov["findings_present_in_source"] = sorted(present)
     run.cov["modelled_cases"] = modelled
-    run.cov["rule"] = ("fixed corpus (witnesses of the _refuted theorems, a three-entry tar stream truncated at every header/body boundary - every byte "
-                       "offset in thorough), then mostly-valid inputs with one damaged aspect per sub-target (pipeline, cli, oci, probe, mapconditions, "
+    run.cov["rule"] = ("fixed corpus (witnesses of the _v0 refutations, a five-entry tar stream truncated at every header/body boundary - every byte "
+                       "offset in thorough; exhaustive small scope over list/map/combinator shapes of the config schema; fieldsEqual over every pair of JSON "
+                       "shapes), then mostly-valid inputs with one damaged aspect per sub-target (pipeline, cli, oci, probe, mapconditions, "
                        "template-conditions, template-source, template-reconcile, ownerannotation); non-trivial & distinct = distinct (target, outcome class, "
                        "stage, error class | panic function) tuples")
     ex = [i for i, o in enumerate(outs) if o and "obs" in o][:2] + [i for i, o in enumerate(outs) if o and "panic" in o][:1]
